@@ -24,6 +24,28 @@ def load_group(name):
     return importlib.import_module(f"harness.groups.{name}")
 
 
+def changed_sources(pid):
+    """anchored source files of the property whose content differs from the recorded hashes
+    (harness/source_hashes.json, written by tools/update_hashes.py when /repo's HEAD is validated)"""
+    import hashlib
+    try:
+        rec = json.load(open(os.path.join(VERIF, "harness", "source_hashes.json")))
+        files = []
+        for l in open(os.path.join(VERIF, "properties.jsonl")):
+            p = json.loads(l)
+            if p["id"] == pid:
+                files = p["anchors"]["files"]
+        out = []
+        for f in files:
+            path = os.path.join(core.REPO, f)
+            h = hashlib.sha256(open(path, "rb").read()).hexdigest() if os.path.exists(path) else None
+            if rec.get(f) != h:
+                out.append(f)
+        return out
+    except Exception:
+        return []
+
+
 def load_known():
     if not os.path.exists(KNOWN):
         return []
@@ -124,11 +146,14 @@ def main(argv=None):
             aud = lean_audit.audit(P["modules"], P["theorems"], tier)
         # ---- 2./3. correspondence + oracle
         rng = Rng(seed * 1000003 + int(pid[1:]))
+        changed = changed_sources(pid)
+        # the anchored code differs from the tree the model was last validated against: look harder
+        boost = 5.0 if (changed and tier == "quick") else 1.0
         all_recs, all_dis, all_vio = [], [], []
         per_group = {}
         for gname, budget in P["groups"].items():
             G = load_group(gname)
-            n = int(budget[0 if tier == "quick" else 1] * args.scale)
+            n = int(min(budget[0 if tier == "quick" else 1] * args.scale * boost, max(budget[1], budget[0])))
             cases = list(G.corpus()) + list(G.gen(rng, n, tier))
             # de-duplicate
             seen, uniq = set(), []
@@ -236,6 +261,7 @@ def main(argv=None):
                 "exhaustive": all(g["exhaustive"] for g in per_group.values()) if per_group else False,
                 "known_findings_reproduced": sorted(hits.keys()),
                 "partial": P.get("partial", ""),
+                "anchored_sources_changed_since_validation": changed,
             },
             "assumptions": P.get("assumptions", []),
             "wall_s": round(wall, 2), "violations": nviol,
